@@ -1,4 +1,10 @@
 import Mathlib.Analysis.SpecialFunctions.Complex.Arg
+import HcipyVerif.Model.Grid
+import Mathlib.Tactic.Linarith
+import Mathlib.Tactic.FieldSimp
+import Mathlib.Algebra.Order.Field.Rat
+import Mathlib.Data.Rat.Lemmas
+import Mathlib.Data.Nat.Sqrt
 
 /-!
 Real-number specification of the coordinate-system conversions of `hcipy/field/polar_grid.py`:
@@ -6,6 +12,9 @@ Real-number specification of the coordinate-system conversions of `hcipy/field/p
 computes `(r cos θ, r sin θ)`.  `np.hypot` is `√(x²+y²)` and `np.arctan2(y, x)` is the principal
 argument of `x + iy` in `(-π, π]` (NumPy specifications, assumed).
 -/
+set_option linter.unusedSimpArgs false
+set_option linter.unusedVariables false
+
 namespace HcipyVerif.Grid
 
 noncomputable def toPolar (p : ℝ × ℝ) : ℝ × ℝ :=
@@ -15,5 +24,122 @@ noncomputable def toCart (q : ℝ × ℝ) : ℝ × ℝ := (q.1 * Real.cos q.2, q
 
 theorem norm_mk (x y : ℝ) : ‖(⟨x, y⟩ : ℂ)‖ = Real.sqrt (x * x + y * y) := by
   rw [Complex.norm_def, Complex.normSq_apply]
+
+/-! ### the exact executable conversion (`cartToPolar?`, `polarToCart` of Model/Grid.lean) -/
+
+theorem ratSqrt?_spec (q r : Rat) (h : ratSqrt? q = some r) : 0 ≤ r ∧ r * r = q := by
+  unfold ratSqrt? at h
+  split at h
+  · simp at h
+  · rename_i hq
+    split at h
+    · rename_i hsq
+      simp only [Option.some.injEq] at h
+      subst h
+      have hd : (q.den.sqrt : Rat) ≠ 0 := by
+        intro e
+        have e' : q.den.sqrt = 0 := by exact_mod_cast e
+        have := hsq.2
+        rw [e'] at this
+        exact q.den_nz this.symm
+      refine ⟨by positivity, ?_⟩
+      obtain ⟨m, hm⟩ := Int.eq_ofNat_of_zero_le (Rat.num_nonneg.mpr (not_lt.mp hq))
+      have hna : q.num.natAbs = m := by rw [hm]; rfl
+      have h1 : ((q.num.natAbs.sqrt : Rat) * (q.num.natAbs.sqrt : Rat)) = (q.num : Rat) := by
+        have : ((q.num.natAbs.sqrt * q.num.natAbs.sqrt : Nat) : Rat) = ((q.num.natAbs : Nat) : Rat) := by rw [hsq.1]
+        rw [Nat.cast_mul] at this
+        rw [this, hna, hm]; simp
+      have h2 : ((q.den.sqrt : Rat) * (q.den.sqrt : Rat)) = (q.den : Rat) := by
+        have : ((q.den.sqrt * q.den.sqrt : Nat) : Rat) = ((q.den : Nat) : Rat) := by rw [hsq.2]
+        push_cast at this; exact this
+      rw [div_mul_div_comm, h1, h2]
+      exact Rat.num_div_den q
+    · simp at h
+
+theorem ratSqrt?_sq (r : Rat) (hr : 0 ≤ r) : ratSqrt? (r * r) = some r := by
+  unfold ratSqrt?
+  have h0 : ¬ (r * r < 0) := not_lt.mpr (mul_self_nonneg r)
+  have hn : (r * r).num = r.num * r.num := Rat.mul_self_num r
+  have hd : (r * r).den = r.den * r.den := Rat.mul_self_den r
+  have hna : (r * r).num.natAbs = r.num.natAbs * r.num.natAbs := by rw [hn, Int.natAbs_mul]
+  simp only [h0, if_false, hna, hd, Nat.sqrt_eq, and_self, if_true, Option.some.injEq]
+  obtain ⟨m, hm⟩ := Int.eq_ofNat_of_zero_le (Rat.num_nonneg.mpr hr)
+  have hna : r.num.natAbs = m := by rw [hm]; rfl
+  have h2 : ((r.num.natAbs : Nat) : Rat) = (r.num : Rat) := by rw [hna, hm]; simp
+  rw [h2]; exact Rat.num_div_den r
+
+
+theorem sq_sum_zero {x y : Rat} (h : x * x + y * y = 0) : x = 0 ∧ y = 0 := by
+  have hx := mul_self_nonneg x
+  have hy := mul_self_nonneg y
+  exact ⟨mul_self_eq_zero.mp (by linarith), mul_self_eq_zero.mp (by linarith)⟩
+
+/-- what `cartToPolar?` returns: `[r, c, s]` with `r ≥ 0`, `r² = x² + y²`, `(c, s)` on the unit circle,
+and `(x, y) = (r c, r s)` -/
+theorem cartToPolar?_spec (x y : Rat) (q : List Rat) (h : cartToPolar? [x, y] = some q) :
+    ∃ r c s, q = [r, c, s] ∧ 0 ≤ r ∧ r * r = x * x + y * y ∧ c * c + s * s = 1 ∧ x = r * c ∧ y = r * s := by
+  simp only [cartToPolar?, Option.map_eq_some_iff] at h
+  obtain ⟨r, hr, rfl⟩ := h
+  obtain ⟨h0, hsq⟩ := ratSqrt?_spec _ _ hr
+  by_cases hz : r = 0
+  · subst hz
+    obtain ⟨rfl, rfl⟩ := sq_sum_zero (by linarith : x * x + y * y = 0)
+    exact ⟨0, 1, 0, by simp, le_refl _, by ring, by ring, by ring, by ring⟩
+  · refine ⟨r, x / r, y / r, by simp [hz], h0, hsq, ?_, by field_simp, by field_simp⟩
+    have : r * r ≠ 0 := mul_ne_zero hz hz
+    field_simp
+    linarith
+
+theorem cartToPolar?_complete (r c s : Rat) (hr : 0 ≤ r) (hcs : c * c + s * s = 1) :
+    cartToPolar? [r * c, r * s] = some (if r = 0 then [0, 1, 0] else [r, c, s]) := by
+  have : r * c * (r * c) + r * s * (r * s) = r * r := by
+    have : r * c * (r * c) + r * s * (r * s) = r * r * (c * c + s * s) := by ring
+    rw [this, hcs, mul_one]
+  simp only [cartToPolar?, this, ratSqrt?_sq r hr, Option.map_some, Option.some.injEq]
+  by_cases hz : r = 0
+  · simp [hz]
+  · simp only [hz, if_false, List.cons.injEq, and_true, true_and]
+    constructor <;> field_simp
+
+/-- bridge to the real-number specification `toPolar` (`hypot`, `arctan2`) -/
+theorem cartToPolar?_toPolar (x y r c s : Rat) (h : cartToPolar? [x, y] = some [r, c, s]) :
+    (toPolar ((x : ℝ), (y : ℝ))).1 = (r : ℝ) ∧ Real.cos (toPolar ((x : ℝ), (y : ℝ))).2 = (c : ℝ) ∧
+      Real.sin (toPolar ((x : ℝ), (y : ℝ))).2 = (s : ℝ) := by
+  obtain ⟨r', c', s', hq, h0, hsq, _, hx, hy⟩ := cartToPolar?_spec x y _ h
+  simp only [List.cons.injEq, and_true] at hq
+  obtain ⟨rfl, rfl, rfl⟩ := hq
+  have hsqR : ((x : ℝ) * x + y * y) = (r : ℝ) * r := by exact_mod_cast hsq.symm
+  have h0R : (0 : ℝ) ≤ r := by exact_mod_cast h0
+  have hnorm : ‖(⟨(x : ℝ), (y : ℝ)⟩ : ℂ)‖ = (r : ℝ) := by rw [norm_mk, hsqR, Real.sqrt_mul_self h0R]
+  refine ⟨by simp only [toPolar]; rw [hsqR, Real.sqrt_mul_self h0R], ?_, ?_⟩
+  · simp only [toPolar]
+    by_cases hz : r = 0
+    · subst hz
+      obtain ⟨rfl, rfl⟩ := sq_sum_zero (by linarith : x * x + y * y = 0)
+      simp only [cartToPolar?] at h
+      have : (⟨((0 : ℚ) : ℝ), ((0 : ℚ) : ℝ)⟩ : ℂ) = 0 := by simp [Complex.ext_iff]
+      rw [this, Complex.arg_zero, Real.cos_zero]
+      have h' := h
+      simp [ratSqrt?] at h'
+      exact_mod_cast h'.1
+    · have hne : (⟨(x : ℝ), (y : ℝ)⟩ : ℂ) ≠ 0 := by
+        intro e; rw [e, norm_zero] at hnorm; exact hz (by exact_mod_cast hnorm.symm)
+      rw [Complex.cos_arg hne, hnorm]
+      have hrR : (r : ℝ) ≠ 0 := by exact_mod_cast hz
+      simp only
+      rw [hx]; push_cast; field_simp
+  · simp only [toPolar]
+    by_cases hz : r = 0
+    · subst hz
+      obtain ⟨rfl, rfl⟩ := sq_sum_zero (by linarith : x * x + y * y = 0)
+      have : (⟨((0 : ℚ) : ℝ), ((0 : ℚ) : ℝ)⟩ : ℂ) = 0 := by simp [Complex.ext_iff]
+      rw [this, Complex.arg_zero, Real.sin_zero]
+      have h' := h
+      simp [cartToPolar?, ratSqrt?] at h'
+      exact_mod_cast h'.2
+    · rw [Complex.sin_arg, hnorm]
+      have hrR : (r : ℝ) ≠ 0 := by exact_mod_cast hz
+      simp only
+      rw [hy]; push_cast; field_simp
 
 end HcipyVerif.Grid
